@@ -487,7 +487,11 @@ func (o *ObjectSchema) applySubObjectDefaultValuesRecursive(
 			// merge into, the member's own Unserialize decides what to make of the value.
 			return
 		}
-		data = existingMap
+		// Copy before extending: the value may be the schema's own (shared) default for this property.
+		data = make(map[string]any, len(existingMap))
+		for k, v := range existingMap {
+			data[k] = v
+		}
 	}
 	subObjectDefaults := subObject.GetDefaults()
 	for k, v := range subObjectDefaults {
